@@ -147,6 +147,8 @@ def gen(rng, tier):
                 cvs = [c for c in cvs if c != full[2]]
                 if full[2] in ("d", "z"):
                     biases = [b for b in biases if not (b == "h" or (b == "hs" and full[2] == "z"))]
+                if full[2].startswith("wd"):          # the restraint added by script on that variable goes with it
+                    biases = [b for b in biases if b != "wb" + full[2][2:]]
             if len(full) == 4 and full[1] == "bias" and full[3] == "delete" and full[2] in biases:
                 biases = [b for b in biases if b != full[2]]
             if len(full) == 3 and full[1] == "config" and full[2].startswith("colvar {\n name w"):
